@@ -206,6 +206,14 @@ func (m *model) index6(ip net.IP) *big.Int {
 	return q
 }
 
+// v4mapped is the address ::ffff:a.b.c.d (16 bytes) for the low 32 bits of v
+func v4mapped(v uint64) net.IP {
+	ip := make(net.IP, 16)
+	ip[10], ip[11] = 0xff, 0xff
+	ip[12], ip[13], ip[14], ip[15] = byte(v>>24), byte(v>>16), byte(v>>8), byte(v)
+	return ip
+}
+
 func u32ip(v uint32, form16 bool) net.IP {
 	ip := net.IPv4(byte(v>>24), byte(v>>16), byte(v>>8), byte(v)) // 16-byte form
 	if form16 {
@@ -268,6 +276,13 @@ func (m *model) resolveHint(h Hint) resolvedHint {
 			}
 		case "otherfam":
 			r.ipnet.IP = net.IPv4(10, 0, byte(h.K>>8), byte(h.K)).To4()
+		case "v4m":
+			// an address of ::ffff:0:0/96: net.IPNet.Contains takes it for an IPv4 address. If the pool
+			// covers it, it names a block like any other address
+			r.ipnet.IP = v4mapped(h.Inner)
+			if q := m.index6(r.ipnet.IP); q.Sign() >= 0 && q.Cmp(new(big.Int).SetUint64(m.n)) < 0 {
+				r.names, r.idx = true, q.Uint64()
+			}
 		case "zero":
 			// the unspecified address, as a length-only IA_PD hint carries it
 			r.ipnet.IP = make(net.IP, 16)
@@ -369,6 +384,11 @@ func (m *model) resolveFree(f FreeSpec) resolvedFree {
 			}
 			r.inBlock, r.idx = true, idx
 			ip, ok = m.addr6(new(big.Int).SetUint64(idx), f.Inner)
+		case "v4m":
+			ip, ok = v4mapped(f.Inner), true
+			if q := m.index6(ip); q.Sign() >= 0 && q.Cmp(new(big.Int).SetUint64(m.n)) < 0 {
+				r.inBlock, r.idx = true, q.Uint64()
+			}
 		case "below":
 			ip, ok = m.addr6(new(big.Int).Neg(new(big.Int).SetUint64(f.K+1)), f.Inner)
 		case "above":
